@@ -30,7 +30,7 @@ REQUIRED = {"xml.well_formed": {"quick": 600, "thorough": 30000}, "testcases.mat
             "counters.match_entries": {"quick": 600, "thorough": 30000}, "problem.entry_names_step_or_hook": {"quick": 300, "thorough": 15000},
             "reporter.never_raises": {"quick": 600, "thorough": 30000},
             "testcases.scenario_whose_cleanup_raised_is_not_reported_passed": {"quick": 30, "thorough": 1500}}
-REQUIRED_SEEN = {"feature_file_name_class": ["dotted"], "testcase_status": ["passed", "failed", "error", "hook_error", "skipped", "untested"],
+REQUIRED_SEEN = {"feature_file_name_class": ["dotted"], "captured_output_size": ["beyond_64KiB"], "testcase_status": ["passed", "failed", "error", "hook_error", "skipped", "untested"],
                  "hostile_class_in_report": ["xml_meta", "cdata_end", "c0", "c1", "ansi", "astral", "non_ascii", "format_meta"]}
 NSHARDS = {"quick": 16, "thorough": 16}
 
@@ -370,6 +370,14 @@ def run(spec, mon):
                 f["file"] = nm
                 f.pop("_text", None)
             mon.seen("feature_file_name_class", "dotted")
+        if i % 10 == 7 and case["program"]["outcomes"]:
+            # a very chatty step: captured output far beyond 64 KiB with CDATA terminators spread over it (whatever block size a
+            # writer works with, some ']]>' straddles a block boundary)
+            victim = rng.choice(sorted(case["program"]["outcomes"]))
+            filler = "x" * rng.randint(60000, 60002)
+            big = filler + "]]>" * 4000 + "y" * rng.randint(50000, 50002) + "]]>" * 3000
+            noisy[victim] = (big, "e" * rng.randint(65530, 65540) + "]]>]]>", "log ]]> " + "z" * 70000 + "]]>")
+            mon.seen("captured_output_size", "beyond_64KiB")
         mode = i % 4
         if mode == 1 and not case["cfg"]["dry_run"]:
             obs0 = lab.run(case["program"], args=case["args"])
